@@ -30,6 +30,8 @@ def mc_config(name, consts, invariants, spec="MCSpec", props=None):
     consts.setdefault("Restarts", "FALSE")
     for k, v in consts.items():
         lines.append("  %s = %s" % (k, v))
+    props = list(props or []) + [i.split(":", 1)[1] for i in invariants if i.startswith("PROPERTY:")]
+    invariants = [i for i in invariants if not i.startswith("PROPERTY:")]
     if invariants:
         lines.append("INVARIANTS " + " ".join(invariants))
     if props:
@@ -233,8 +235,10 @@ MC = {
              ["GraphWellFormed"])],
     "C13": [("files", {"TagNames": '{"tag/a"}', "ConvNames": "{}", "MaxCalls": 3, "MaxViews": 2, "Menu": '"files"', "Invalid": "FALSE"},
              ["NoUseAfterFree", "Balanced", "DirExactWhenQuiet", "NoLeak"])],
-    "C12": [("files", {"TagNames": '{"tag/a"}', "ConvNames": "{}", "MaxCalls": 3, "MaxViews": 1, "Menu": '"files"', "Invalid": "FALSE"},
-             ["ViewComplete", "OneIdPerConn", "NoUseAfterFree", "NeverStuck"])],
+    # C12: the process may be killed between any two steps and restarted (Restart action of Manager.tla), then anything may follow
+    "C12": [("restart", {"TagNames": '{"tag/a"}', "ConvNames": '{"cv"}', "MaxCalls": 3, "MaxViews": 0, "Menu": '"conv"', "Invalid": "FALSE", "Restarts": "TRUE"},
+             ["MCViewComplete", "NameOrderIsServeOrder", "NeverStale", "Balanced", "NoUseAfterFree", "GraphWellFormed", "NeverStuck",
+              "FlagsMatchJobs", "OneIdPerConn", "ConvEventually", "PROPERTY:StreamsKeptProp"])],
     "C16": [("conv", {"TagNames": '{"tag/a"}', "ConvNames": '{"cv"}', "MaxCalls": 3, "MaxViews": 0, "Menu": '"conv"', "Invalid": "FALSE"},
              ["ConvFreshAtRest", "ConvEventually", "NeverStuck", "FlagsMatchJobs"])],
 }
@@ -243,11 +247,19 @@ MC = {
 # level.  TLC must FIND the counterexample (otherwise the model no longer describes the code as found: machinery error).
 MC_EXPECTED = {
     "C16": [("conv", {"TagNames": '{"tag/a"}', "ConvNames": '{"cv"}', "MaxCalls": 3, "MaxViews": 0, "Menu": '"conv"', "Invalid": "FALSE"},
-             {"ConvFresh": "C16.ConvFresh@ConvCompute", "DetachStops": "C16.DetachStops@ImportDone"})],
+             {"ConvFresh": "C16.ConvFresh@ConvCompute", "DetachStops": "C16.DetachStops@ImportDone"}),
+            ("restart", {"TagNames": '{"tag/a"}', "ConvNames": '{"cv"}', "MaxCalls": 3, "MaxViews": 0, "Menu": '"conv"', "Invalid": "FALSE", "Restarts": "TRUE"},
+             {"ConvFreshAtRest": "C16.ConvFreshAtRest:cause=CrashRestart/import-leftover"})],
 }
 
 
 MC_THOROUGH = {
+    "C12": [("restart-tags", {"TagNames": '{"tag/a", "mark/m"}', "ConvNames": "{}", "MaxCalls": 3, "MaxViews": 0, "Menu": '"tags"', "Invalid": "FALSE", "Restarts": "TRUE"},
+             ["MCViewComplete", "NameOrderIsServeOrder", "NeverStale", "Balanced", "NoUseAfterFree", "GraphWellFormed", "NeverStuck",
+              "FlagsMatchJobs", "OneIdPerConn", "PROPERTY:StreamsKeptProp"]),
+            ("restart-views", {"TagNames": '{"tag/a"}', "ConvNames": "{}", "MaxCalls": 4, "MaxViews": 1, "Menu": '"files"', "Invalid": "FALSE", "Restarts": "TRUE"},
+             ["MCViewComplete", "NameOrderIsServeOrder", "NeverStale", "Balanced", "NoUseAfterFree", "NeverStuck", "FlagsMatchJobs",
+              "OneIdPerConn", "DirExactWhenQuiet", "PROPERTY:StreamsKeptProp"])],
     "C06": [("subs", {"TagNames": '{"tag/a", "tag/b"}', "ConvNames": "{}", "MaxCalls": 3, "MaxViews": 0, "Menu": '"subs"', "Invalid": "FALSE"},
              ["NeverStale", "GraphWellFormed", "NeverStuck", "FlagsMatchJobs"])],
     "C16": [("conv-marks-views", {"TagNames": '{"tag/a", "mark/m"}', "ConvNames": '{"cv"}', "MaxCalls": 3, "MaxViews": 1, "Menu": '"conv"', "Invalid": "FALSE"},
